@@ -211,7 +211,7 @@ fn start_call_watchdog() {
 
 const ENV_NAMES: &[&str] = &[
     "SOURCE_DATE_EPOCH", "USER", "LANG", "LC_ALL", "TZ", "RUST_BACKTRACE", "RUST_LOG", "KIKI_SEED", "KIKI_DEBUG",
-    "KIKI_CACHE", "HOME", "TMPDIR", "CARGO_MANIFEST_DIR", "OUT_DIR", "NO_COLOR", "RUSTFLAGS",
+    "KIKI_CACHE", "HOME", "TMPDIR", "CARGO_MANIFEST_DIR", "OUT_DIR", "NO_COLOR", "RUSTFLAGS", "RUST_LIB_BACKTRACE",
 ];
 const ENV_VALUES: &[&str] = &["", "0", "1", "42", "full", "C", "en_US.UTF-8", "Asia/Tokyo", "/nonexistent", "1700000000", "kiki"];
 
@@ -890,6 +890,8 @@ fn main() {
             let mut violations: Vec<J> = vec![];
             let mut samples: Vec<J> = vec![];
             let mut timeout_texts: BTreeSet<usize> = BTreeSet::new();
+            let mut firstcall_violations: Vec<J> = vec![];
+            let mut firstcall_children = 0u64;
             let mut multi_violation_texts: BTreeSet<usize> = BTreeSet::new();
             let mut suffix_path_texts: BTreeSet<usize> = BTreeSet::new();
             let mut conflict_texts: BTreeSet<usize> = BTreeSet::new();
@@ -920,6 +922,55 @@ fn main() {
                     let (t, cat, planted) = corpus.get(*id);
                     if !canon.contains_key(id) {
                         let c = canonical(&t, &base_dir);
+                        // every 12th new text (decided by the text id alone): what does the FIRST
+                        // call of a fresh process return under a different real environment?
+                        let mut prng = Rng::derive(seed, &[ENGINE_A, 0xF1C5, *id as u64]);
+                        if prng.below(12) == 0 && c.class != "timeout" && firstcall_violations.len() < 3 {
+                            let n = prng.range(1, 4);
+                            let mut envs: Vec<(String, String)> = vec![];
+                            for _ in 0..n {
+                                envs.push(((*prng.pick(ENV_NAMES)).to_string(), (*prng.pick(ENV_VALUES)).to_string()));
+                            }
+                            if prng.chance(1, 2) {
+                                envs.push(("RUST_BACKTRACE".to_string(), (*prng.pick(&["1", "full", "0"])).to_string()));
+                            }
+                            let tf = format!("{replay_dir}/firstcall-{}-{}.kiki", from, id);
+                            std::fs::write(&tf, t.as_bytes()).expect("write text");
+                            let exe = std::env::current_exe().expect("current_exe");
+                            let mut cmd = std::process::Command::new(exe);
+                            cmd.arg("firstcall").arg(&tf);
+                            for nme in ENV_NAMES {
+                                cmd.env_remove(nme);
+                            }
+                            for (k, v) in &envs {
+                                cmd.env(k, v);
+                            }
+                            firstcall_children += 1;
+                            if let Ok(out) = cmd.output() {
+                                let got = String::from_utf8_lossy(&out.stdout).trim().to_string();
+                                let want = format!("{}:{:016x}", c.class, c.digest());
+                                if !got.is_empty() && got != want && !got.starts_with("timeout") {
+                                    let mut ej = J::obj();
+                                    for (k, v) in &envs {
+                                        ej.put(k, J::str(v));
+                                    }
+                                    let path = format!("{replay_dir}/C14-seed{seed}-firstcall-text{id}.json");
+                                    let j = J::obj()
+                                        .set("property", J::str("C14"))
+                                        .set("engine", J::str("ambient"))
+                                        .set("verif_seed", J::Int(seed as i128))
+                                        .set("kind", J::str("first-call-in-process-differs"))
+                                        .set("texts", J::Arr(vec![J::str(&t)]))
+                                        .set("environment", ej)
+                                        .set("canonical", J::str(&want))
+                                        .set("observed", J::str(&got))
+                                        .set("text_id", J::uz(*id));
+                                    std::fs::write(&path, j.to_string()).expect("write replay");
+                                    firstcall_violations.push(J::obj().set("replay", J::str(&path)).set("kind", J::str("first-call-in-process-differs")).set("run", J::Int(r as i128)));
+                                }
+                            }
+                            let _ = std::fs::remove_file(&tf);
+                        }
                         *class_counts.entry(format!("canonical:{}:{}", cat, c.class)).or_insert(0) += 1;
                         if c.class == "err" {
                             let mut shape: String =
@@ -1096,7 +1147,12 @@ fn main() {
                 .set("digest", J::str(&format!("{:016x}", digest.0)))
                 .set("canonical_digests", canon_j)
                 .set("samples", J::Arr(samples))
-                .set("violations", J::Arr(violations))
+                .set("violations", J::Arr({
+                    let mut v = violations;
+                    v.extend(firstcall_violations);
+                    v
+                }))
+                .set("firstcall_children", J::Int(firstcall_children as i128))
                 .set("generate_timeouts", J::Int(TIMEOUTS.load(Ordering::SeqCst) as i128))
                 .set("timeout_text_ids", J::Arr(timeout_texts.iter().map(|i| J::uz(*i)).collect()))
                 .set("wall_s", J::Int(((real_now_s() - t0) * 1000.0) as i128));
@@ -1136,6 +1192,25 @@ fn main() {
                     println!("{}", J::obj().set("reproduced", J::Bool(false)).to_string());
                 }
             }
+        }
+        Some("firstcall") => {
+            // outcome of the FIRST generate call of a fresh process, under whatever real
+            // environment this process was started with (nothing is reset): state that a change
+            // initialises lazily, once per process, from the environment or the clock is decided here
+            let file = args.get(2).expect("text file");
+            let t = std::fs::read_to_string(file).expect("read");
+            let th = SimThread::spawn((0, 0));
+            let o = match th.call(Cmd::Generate(Arc::from(t.as_str()), 0)) {
+                Some(r) => {
+                    th.retire();
+                    r.outcome
+                }
+                None => {
+                    th.abandon();
+                    timeout_outcome()
+                }
+            };
+            println!("{}:{:016x}", o.class, o.digest());
         }
         Some("canon") => {
             // canonical outcome digest of one text (cross-process agreement / uncontrolled-source replay)
